@@ -171,6 +171,25 @@ theorem classify_delete (a : Str) : (classify (.obj [(b!"action", .str a)])).map
   simp only [classify, h1, h2, h3, h4]
   by_cases h : a = b!"delete" <;> simp [h]
 
+/-- … in *any* object (whatever its other members, in whatever order): an action next to a `data`
+member is invalid, and so is an action other than `delete` - such an object is never taken for the
+data value or the primitive its `data` member would be on its own -/
+theorem classify_action_general (ms : List (Str × J)) (a : Str)
+    (ha : member ms b!"action" = some (.str a))
+    (h : a ≠ b!"delete" ∨ (member ms b!"data").isSome) : classify (.obj ms) = none := by
+  generalize hr : member ms b!"rid" = rm
+  generalize hs : member ms b!"soft" = sm
+  generalize hd : member ms b!"data" = dm at h
+  simp only [classify, hr, hs, ha, hd]
+  rcases rm with _ | (_|_|_|_|_|_) <;> rcases sm with _ | (_|_|_|_|_|_) <;> simp
+  all_goals
+    intro hdm
+    rcases h with h | h
+    · exact h
+    · simp [hdm] at h
+
+example : classify (.obj [(b!"action", .str b!"remove"), (b!"data", .obj [(b!"foo", .num b!"42")])]) = none := by decide
+
 /-- … `{"data":d}` is a data value when `d` is an object or array and the primitive `d` otherwise;
 an object with none of the reserved members is invalid -/
 theorem classify_data (d : J) : (classify (.obj [(b!"data", d)])).map (fun v => (v.typ, v.inner)) =
